@@ -113,6 +113,12 @@ impl SimdUnaryOp<f32> for Exp {
         let it = int_ops.shift_left::<23>(k);
         let it = int_ops.sub(it, ia);
 
+        #[cfg(rten_verif)]
+        crate::verif::record_exp_factors(
+            k.to_array().as_ref(),
+            is.to_array().as_ref(),
+            it.to_array().as_ref(),
+        );
         let s: I::F32 = is.reinterpret_cast();
         let t: I::F32 = it.reinterpret_cast();
         let r = ops.mul(r, s);
@@ -181,6 +187,8 @@ impl SimdUnaryOp<f32> for ReducedRangeExp {
         // normal number.
         let exponent_bias = int_ops.splat(127);
         let k_pow2 = int_ops.shift_left::<23>(int_ops.add(k, exponent_bias));
+        #[cfg(rten_verif)]
+        crate::verif::record_exp_factors(k.to_array().as_ref(), k_pow2.to_array().as_ref(), &[]);
         let k_pow2: I::F32 = k_pow2.reinterpret_cast();
         let r = ops.mul(r, k_pow2);
 
